@@ -31,7 +31,7 @@ pub fn describe_world(world: &World) -> serde_json::Value {
 
 pub fn gen_case(seed: u64, k: u64, tier: Tier) -> Case {
   let mut rng = Rng::for_case(seed, k);
-  let cfg = GenCfg { max_modules: if tier == Tier::Quick { 7 } else { 10 }, redirects: true, faults: true, same_attr_proviso: true };
+  let cfg = GenCfg { assets: false, max_modules: if tier == Tier::Quick { 7 } else { 10 }, redirects: true, faults: true, same_attr_proviso: true };
   let (world, roots) = gen_world(&mut rng, &cfg);
   // default build options: the property quantifies over worlds, not over build options (with
   // skip_dynamic_deps a dynamically imported module that the all-kinds build loaded through a type edge is
